@@ -6,7 +6,9 @@ from . import model as M
 
 FORMULAS = ["H2O", "CaCO3+6H2O", "D2O", "H[2]2O", "Fe{2+}O", "Ni[58]{3+}Cl3", "NaCl // H2O",
             "5wt% NaCl // H2O", "(CH2)8", "Fe2(SO4)3", "T2O", "50vol% D2O@1.1 // H2O@1", "Gd[155]2O3",
-            "1mm Fe // 2mm Ni", "5g NaCl // 50mL H2O@1", " ", "n", "U[235]O2"]
+            "1mm Fe // 2mm Ni", "5g NaCl // 50mL H2O@1", " ", "n", "U[235]O2",
+            # failing operations: must raise and leave the grammar of every table usable
+            "Xx2O", "Fe{9+}O", "H2O)", "Fe[400]2O3", "5wt% Qq // H2O"]
 FASTA = ["aa:AVG", "dna:ACGT", "rna:ACGU"]
 FORMULA_HOW = ["str", "str", "density", "parse", "copy", "pickle", "deepcopy", "add", "dict", "hill", "replace",
                "replace_iso", "natural", "structure"]
